@@ -302,6 +302,71 @@ fn check_lookups(ctx: &mut Ctx, e: &Envelope, t: &T, rng: &mut Rng) {
         judge_single(ctx, "optional_assertion_with_predicate", trap::guard(|| e.optional_assertion_with_predicate(probe.clone()).map(|a| a.map(|a| d32(&a)))), &wa, false);
         judge_single(ctx, "object_for_predicate", trap::guard(|| e.object_for_predicate(probe.clone()).map(|a| Some(d32(&a)))), &want_obj, true);
         judge_single(ctx, "optional_object_for_predicate", trap::guard(|| e.optional_object_for_predicate(probe.clone()).map(|a| a.map(|a| d32(&a)))), &want_obj, false);
+        // typed lookups: the stored value or an error, never None / the default while the predicate is
+        // present, never another value
+        {
+            let stored_text: Vec<Option<String>> = want.iter().map(|&i| { let o = object_of(&t.children[i]); let s = { let mut x = o; while x.kind == Kind::Node { x = &x.children[0]; } x }; s.leaf.as_ref().and_then(|l| spec::parse_item(l).ok()).and_then(|it| if let Item::Text(v) = it { Some(v) } else { None }) }).collect();
+            let plain_assertion = want.len() == 1 && t.children[want[0]].kind == Kind::Assertion;
+            ctx.count("typed_lookup_checks");
+            let r = trap::guard(|| {
+                (
+                    e.extract_object_for_predicate::<String>(probe.clone()),
+                    e.extract_optional_object_for_predicate::<String>(probe.clone()),
+                    e.extract_object_for_predicate_with_default::<String>(probe.clone(), "<<default>>".to_string()),
+                    e.extract_objects_for_predicate::<String>(probe.clone()),
+                    e.try_object_for_predicate::<String>(probe.clone()),
+                    e.try_optional_object_for_predicate::<String>(probe.clone()),
+                )
+            });
+            match r {
+                Err(p) => ctx.violation(&format!("lookup-panic/typed/{}", p.signature()), &format!("{:?}", p), replay()),
+                Ok((plain, opt, dflt, all, try_one, try_opt)) => {
+                    match want.len() {
+                        0 => {
+                            if plain.is_ok() || !matches!(opt, Ok(None)) || !matches!(&dflt, Ok(d) if d == "<<default>>") || !matches!(&all, Ok(v) if v.is_empty()) || try_one.is_ok() || !matches!(try_opt, Ok(None)) {
+                                ctx.violation("typed-lookup/absent", "typed lookups of an absent predicate did not report absence", replay());
+                            }
+                        }
+                        1 => {
+                            let st = &stored_text[0];
+                            let sound = |r: &anyhow::Result<String>| match (r, st) {
+                                (Ok(v), Some(s)) => v == s,
+                                (Ok(_), None) => false,
+                                (Err(_), _) => true,
+                            };
+                            if !sound(&plain) || !sound(&dflt) || !sound(&try_one) {
+                                ctx.violation("typed-lookup/wrong-value", "a typed lookup returned a value the object does not hold (or the default although the predicate is present)", replay());
+                            }
+                            match &opt {
+                                Ok(None) => ctx.violation("typed-lookup/present-reported-absent", "extract_optional_object_for_predicate returned None although the predicate is present exactly once", replay()),
+                                Ok(Some(v)) if Some(v) != st.as_ref() => ctx.violation("typed-lookup/wrong-value", "optional typed lookup returned another value", replay()),
+                                _ => {}
+                            }
+                            if matches!(try_opt, Ok(None)) {
+                                ctx.violation("typed-lookup/present-reported-absent", "try_optional_object_for_predicate returned None although the predicate is present", replay());
+                            }
+                            if matches!(&dflt, Ok(d) if d == "<<default>>") {
+                                ctx.violation("typed-lookup/default-for-present", "extract_object_for_predicate_with_default returned the default although the predicate is present", replay());
+                            }
+                            if plain_assertion && st.is_some() && (plain.is_err() || dflt.is_err() || !matches!(&opt, Ok(Some(_)))) {
+                                ctx.violation("typed-lookup/missing", "typed lookup failed although the unique plain assertion holds a value of that type", replay());
+                            }
+                        }
+                        _ => {
+                            if plain.is_ok() || opt.is_ok() || dflt.is_ok() || try_one.is_ok() || try_opt.is_ok() {
+                                ctx.violation("typed-lookup/ambiguous-accepted", "a single-result typed lookup succeeded although several assertions match", replay());
+                            }
+                            if let Ok(v) = &all {
+                                let w: Vec<String> = stored_text.iter().flatten().cloned().collect();
+                                if stored_text.iter().all(|x| x.is_some()) && *v != w {
+                                    ctx.violation("typed-lookup/objects-differ", "extract_objects_for_predicate returned other values", replay());
+                                }
+                            }
+                        }
+                    }
+                }
+            }
+        }
         match trap::guard(|| e.objects_for_predicate(probe.clone())) {
             Ok(v) => {
                 let got: Vec<D32> = v.iter().map(d32).collect();
@@ -428,7 +493,9 @@ fn check_extract(ctx: &mut Ctx, e: &Envelope, t: &T) {
         Ok(Ok(v)) => {
             let ok = s.kv == Some(v.value()) || matches!(&item, Some(Item::Tag(40000, x)) if matches!(**x, Item::UInt(n) if n == v.value()));
             if !ok {
-                ctx.violation("extract-wrong-value/KnownValue", "extract_subject::<KnownValue> returned a value the subject does not hold", replay());
+                // the known dcbor cause (a negative integer converted to u64 by wrapping, D12) keeps its own signature
+                let cause = if matches!(&item, Some(Item::Tag(40000, x)) if matches!(**x, Item::NInt(_))) { "/negative-leaf-wraps" } else { "" };
+                ctx.violation(&format!("extract-wrong-value/KnownValue{}", cause), "extract_subject::<KnownValue> returned a value the subject does not hold", replay());
             }
         }
         Ok(Err(_)) => {
@@ -440,7 +507,10 @@ fn check_extract(ctx: &mut Ctx, e: &Envelope, t: &T) {
     match trap::guard(|| e.extract_subject::<Envelope>()) {
         Err(p) => ctx.violation(&format!("extract-panic/Envelope/{}", p.signature()), &format!("{:?}", p), replay()),
         Ok(Ok(v)) => {
-            if !(s.kind == Kind::Wrapped && d32(&v) == s.children[0].digest) {
+            // the wrapped content, or - for a leaf that embeds an envelope's tagged CBOR - that envelope
+            // (judged by the spec recogniser on the leaf bytes, so the legacy #6.24 leaf alias is fine)
+            let embedded = matches!(&item, Some(Item::Tag(200, _))) && s.leaf.as_deref().and_then(|l| spec::parse_envelope(l).ok()).map(|p| p.digest) == Some(d32(&v));
+            if !((s.kind == Kind::Wrapped && d32(&v) == s.children[0].digest) || embedded) {
                 ctx.violation("extract-wrong-value/Envelope", "extract_subject::<Envelope> returned something other than the wrapped content", replay());
             }
         }
